@@ -35,8 +35,9 @@ pub fn check_lock_script(lock_script: &[u8]) -> bool {
 
 /// Returns whether the unlock_script is p2pkh
 pub fn check_unlock_script(unlock_script: &[u8]) -> bool {
+    // A DER signature is 8 to 72 bytes long (r and s lose leading zero bytes), plus the sighash byte
     if unlock_script.is_empty()
-        || unlock_script[0] < OP_PUSH + 71
+        || unlock_script[0] < OP_PUSH + 9
         || unlock_script[0] > OP_PUSH + 73
     {
         return false;
